@@ -56,6 +56,14 @@ var dataNodes = []struct {
 	{Name: "duration-to-influx", Tick: `|eval(lambda: 1s * "v").as('x')|influxDBOut().database('o')`, Out: true},
 	{Name: "groupBy-field-as-tag", From: `.groupBy('s')`, Tick: `|eval(lambda: "v" / "d").as('x')`},
 	{Name: "httpOut", Tick: `|eval(lambda: 1s * "v", lambda: float("v") / float("d")).as('x', 'y')|httpOut('h')`},
+	// points that carry no tag map at all (what stats, deadman, ungrouped batch queries and UDFs emit) through nodes
+	// that write a tag
+	{Name: "stats-default-tag", Tick: `|stats(1s)|default().tag('t', 'v')`},
+	{Name: "stats-eval-tags", Tick: `|stats(1s)|eval(lambda: string("emitted")).as('e').tags('e')`},
+	{Name: "deadman-levelTag-idTag", Tick: `|deadman(100.0, 1s).levelTag('l').idTag('i')`, Alert: true},
+	// more arguments than any built-in function takes
+	{Name: "where-five-arguments", Tick: `|where(lambda: abs("v", 2.0, 3.0, 4.0, 5.0) > 1.0)`},
+	{Name: "eval-five-arguments", Tick: `|eval(lambda: if("v" > 0, 1, 2, 3, 4)).as('x')`},
 }
 
 var fieldVals = []struct {
@@ -124,6 +132,10 @@ func runData(t *testing.T, c DataCase, r *rep.R) []problem {
 		if _, err := env.StartStream("other", "stream|from().measurement('m')|log().prefix('Z')"); err != nil {
 			startErr = err.Error()
 		}
+		kit.Wait()
+		// (time passes before the first point: stats and deadman nodes emit for "no group yet", a point without a
+		// tag map)
+		time.Sleep(1500 * time.Millisecond)
 		kit.Wait()
 		bad := map[string]any{"o": int64(1)}
 		if v := fieldVals[c.V].V; v != nil {
